@@ -499,7 +499,20 @@ class ResultQuantifier(CanBehaveLikeAVariable[T], ABC):
         This is the exposed evaluation method for users.
         """
         SymbolGraph().remove_dead_instances()
+        self._forget_previous_conclusions_()
         yield from map(self._process_result_, self._evaluate__())
+
+    def _forget_previous_conclusions_(self):
+        """
+        Forget the conclusions that the conclusion selectors of this query made in previous evaluations, otherwise a
+        rule query that is evaluated again would treat all its conclusions as duplicates and infer nothing.
+        """
+        from .conclusion_selector import ConclusionSelector
+
+        for node in self._descendants_:
+            if isinstance(node, ConclusionSelector):
+                for seen_set in node.concluded_before.values():
+                    seen_set.clear()
 
     def _evaluate__(
         self,
